@@ -213,6 +213,10 @@ impl Engine for ConcEngine {
         let mut clients = Vec::new();
         let max_ops = if tier == "thorough" { 10 } else { 7 };
         let mut incr_bit = 0u32;
+        // the explicit timestamp last handed out per key: re-used now and then, so that a key
+        // can be deleted and re-created with exactly the version it had before (generations
+        // stay identifiable by their unique lengths)
+        let mut last_explicit: Vec<Option<u64>> = vec![None; n_keys];
         for _ in 0..n_clients {
             let n_ops = 2 + w.below(max_ops - 1) as usize;
             let mut ops = Vec::new();
@@ -224,9 +228,16 @@ impl Engine for ConcEngine {
                     let base = if big { *w.pick(&[4090usize, 8200]) } else { 0 };
                     Val { len: base + next_len, kind: ValKind::Plain }
                 };
-                let ts = |w: &mut Tape, pool: &mut Vec<u64>| {
+                let reuse = last_explicit[key];
+                let mut fresh_explicit: Option<u64> = None;
+                let mut ts = |w: &mut Tape, pool: &mut Vec<u64>| {
                     if w.chance(45, 100) && !pool.is_empty() {
-                        Ts::Abs(pool.pop().unwrap())
+                        if let (Some(t), true) = (reuse, w.chance(1, 4)) {
+                            return Ts::Abs(t);
+                        }
+                        let t = pool.pop().unwrap();
+                        fresh_explicit = Some(t);
+                        Ts::Abs(t)
                     } else {
                         Ts::Auto
                     }
@@ -269,12 +280,52 @@ impl Engine for ConcEngine {
                         _ => Op::Insert { key, val: Val { len: 8, kind: ValKind::Counter(0) }, ts: Ts::Auto, ttl: 0, bytes: false },
                     }
                 };
+                if let Some(t) = fresh_explicit {
+                    last_explicit[key] = Some(t);
+                }
                 ops.push(op);
             }
             clients.push(ops);
         }
         let mut knobs = BTreeMap::new();
         knobs.insert("prefill".into(), c.below(3) as i64);
+        // "recreate" family (own tape): a read-modify-write is in flight on a key that carries an
+        // explicit version while another client deletes the key and creates it again with exactly
+        // that version - same version, different generation
+        let mut a = Tape::fresh(mix(seed, 0xABA));
+        if matches!(property, "C07" | "C18") && a.chance(1, 8) {
+            let t = epoch.wrapping_sub(400) + a.below(300) as u64;
+            let kind = a.below(3);
+            let (first, second) = match kind {
+                0 => (Val { len: 8, kind: ValKind::Counter(5) }, Val { len: 8, kind: ValKind::Counter(1 << 20) }),
+                1 => (Val { len: 2001, kind: ValKind::Plain }, Val { len: 2002, kind: ValKind::Plain }),
+                _ => (Val { len: 2301, kind: ValKind::Json }, Val { len: 2342, kind: ValKind::Json }),
+            };
+            let rmw = match kind {
+                0 => Op::Incr { key: 0, delta: 1 << 8, ts: Ts::Auto, ttl: 0 },
+                1 => Op::Cas { key: 0, expect: Expect::Current, val: Val { len: 2003, kind: ValKind::Plain }, ts: Ts::Auto, ttl: 0 },
+                _ => Op::JsonPatch { key: 0, patch: Patch::AddField, ts: Ts::Auto },
+            };
+            let mut first_client = vec![Op::Insert { key: 0, val: first, ts: Ts::Abs(t), ttl: 0, bytes: a.chance(1, 2) }];
+            if persistent && a.chance(1, 2) {
+                first_client.push(Op::Flush);
+            }
+            first_client.push(rmw.clone());
+            let mut second_client = vec![
+                Op::Get { key: 0, bytes: false },
+                Op::Delete { key: 0, ts: Ts::Auto },
+                Op::Insert { key: 0, val: second, ts: Ts::Abs(t), ttl: 0, bytes: a.chance(1, 2) },
+            ];
+            if a.chance(1, 2) {
+                second_client.push(Op::Get { key: 0, bytes: true });
+            }
+            clients.truncate(1);
+            clients[0].retain(|op| matches!(op, Op::Get { .. } | Op::Range { .. }));
+            clients.push(first_client);
+            clients.push(second_client);
+            knobs.insert("prefill".into(), 0);
+            knobs.insert("recreate".into(), 1);
+        }
         Scenario {
             engine: "conc".into(),
             property: property.into(),
